@@ -6,7 +6,9 @@ INTVALS = [0, 1, -1, 2, 7, 42, 100, 127, -128, 255, 1000, 32767, -32768, 65535, 
 FLTVALS = ['0.0', '1.0', '-1.5', '2.25', '1e10', '0.5f', '3.0', '-0.0', '100.125',
            # doubles that need all 17 significant digits, the limits of both formats, values that round differently as float
            '0.1', '0.30000000000000004', '1.0000000000000002', '1.6666666666666667', '3.141592653589793', '2.2250738585072014e-308', '1.7976931348623157e308', '4.9406564584124654e-324',
-           '0.1f', '16777217.0', '1e-45f', '3.4028234663852886e38', '0x1.fffffffffffffp+0', '1.0 / 3.0', '0.1 + 0.2', '-5.0 / 3.0', '9007199254740993.0', '0.7', '123456789.12345678', '1e23', '8.41e21']
+           '0.1f', '16777217.0', '1e-45f', '3.4028234663852886e38', '0x1.fffffffffffffp+0', '1.0 / 3.0', '0.1 + 0.2', '-5.0 / 3.0', '9007199254740993.0', '0.7', '123456789.12345678', '1e23', '8.41e21',
+           # unsigned 64-bit constants with the top bit set, converted to the floating member at translation time
+           '9223372036854775808u', '18446744073709551615u', '0x8000008000000000u', '0xfffffffffffffbffu', '(unsigned long)-1']
 RANGE = {'_Bool': (0, 1), 'char': (0, 127), 'signed char': (-128, 127), 'unsigned char': (0, 255), 'short': (-32768, 32767), 'unsigned short': (0, 65535),
          'int': (-2147483647, 2147483647), 'unsigned': (0, 4294967295), 'long': (-(1 << 62), 1 << 62), 'unsigned long': (0, 1 << 63),
          'long long': (-(1 << 62), 1 << 62), 'unsigned long long': (0, 1 << 63)}
@@ -83,6 +85,11 @@ class G:
         if len(dims) == 1 and agg is None and m.ty in ('char', 'unsigned char', 'signed char') and r.random() < 0.6:
             L = r.choice([0, n - 1, n, max(n - 2, 0)])
             s = '"' + ''.join(r.choice('abcxyz019 ') for _ in range(L)) + '"'
+            return '{ %s }' % s if r.random() < 0.2 else s
+        if len(dims) == 1 and agg is None and m.ty in ('unsigned short', 'unsigned') and r.random() < 0.5:
+            # char16_t / char32_t strings: exact fit drops the terminator, for static and automatic objects alike
+            L = r.choice([0, n - 1, n, max(n - 2, 0)])
+            s = ('u' if m.ty == 'unsigned short' else 'U') + '"' + ''.join(r.choice('abcxyz019 ') for _ in range(L)) + '"'
             return '{ %s }' % s if r.random() < 0.2 else s
         items = []
         k = r.randrange(0, n + 1)
